@@ -14,7 +14,7 @@ EXPLANATION = (
     "old-style descriptor and meta_bg descriptor writes are restricted by nothing but the documented flags and the location "
     "results of ext2fs_super_and_bgd_loc2, over all groups; one predicate (ext2fs_bg_has_super) feeds writer, reader and "
     "checker; when opening from a backup, the meta_bg descriptor location pairs the first block and the has_super adjustment of "
-    "the same group on every path (as the writer does); opening from a backup clears the UNINIT flags.  Decides wiring; not the "
+    "the same group on every path (as the writer does); opening from a backup clears the UNINIT flags; resize2fs reserves the area of the new last-group backup (sparse_super2) on every path on which its block-move planning succeeds.  Decides wiring; not the "
     "power-of-3/5/7 arithmetic.")
 
 
@@ -298,6 +298,31 @@ def run(world, rep, tier, only=None):
         lits = control_lits(o2, n)
         rep.ob("C20.d", site(o2, "dirty-mark only when writable"), any(t and lit_tests_bit(a, "EXT2_FLAG_RW", "flags") for t, a in lits),
                "guards %s" % [("" if t else "!") + T.pp(a)[:40] for t, a in lits][:5])
+
+    # ------------------------------------------------------------------ C20.e resize reserves the new backup location
+    # With sparse_super2 a shrink moves the second backup to the new last group; the routine that
+    # reserves that group's superblock/descriptor area (and queues the data living there for
+    # relocation) must have run on every path on which blocks_to_move() reports success -
+    # otherwise ext2fs_flush writes the backup over live file data.
+    bm = rs.fn("blocks_to_move", "resize/resize2fs.c")
+    rsv = calls_to(bm, "reserve_sparse_super2_last_group")
+    rep.floor("C20.e reserve_sparse_super2_last_group call in blocks_to_move", len(rsv), 1)
+    ex = absint.Explorer(bm, rs)
+
+    def seen_rsv(node, env, flags, _r=rsv):
+        return flags | {"reserved"} if node in _r else flags
+    terms = ex.run([bm.entry_node()], on_node=seen_rsv)
+    bad = sorted({node.line for (node, env, fl, stt) in terms if node.ev and node.ev["e"] == "R"
+                  and absint._z(ex.eval(node.ev.get("x"), env)) and "reserved" not in fl})
+    rep.ob("C20.e", site(bm, "new last-group backup area reserved on every successful path"), not bad,
+           "every path of blocks_to_move that returns 0 has called reserve_sparse_super2_last_group(); zero returns "
+           "without it at lines %s" % bad, {"entry": "blocks_to_move", "exits": bad} if bad else None)
+    rl = rs.fn("reserve_sparse_super2_last_group", "resize/resize2fs.c")
+    mk = [n for n in calls_to(rl, "ext2fs_mark_block_bitmap2", "ext2fs_mark_block_bitmap_range2")]
+    rep.ob("C20.e", site(rl, "reservation marks the area and queues its data for relocation"),
+           any((T.path(arg(n, 0)) or "").endswith("reserve_blocks") for n in mk) and
+           any((T.path(arg(n, 0)) or "").endswith("move_blocks") for n in mk),
+           "marks in rfs->reserve_blocks and rfs->move_blocks: %s" % sorted({T.path(arg(n, 0)) for n in mk}))
 
 
 def _is_progress(a):
